@@ -274,7 +274,7 @@ func (a *Analysis) ruleF2() {
 	// the result is returned directly: a fresh slice
 	okRet := true
 	for _, ret := range returnsOf(fn) {
-		if len(ret.Results) != 1 || ret.Results[0] != key.Instr.(ssa.Value) {
+		if len(ret.Results) != 1 || returnedValue(ret, 0) != key.Instr.(ssa.Value) {
 			okRet = false
 			r.Bad("F2r", fk+"/result", a.P.InstrPos(ret), "", "%s returns %s instead of the slice pbkdf2.Key returned: not (necessarily) a fresh 64-byte result", fk, ret.Results[0].String())
 		}
@@ -533,13 +533,13 @@ func (a *Analysis) ruleF3() {
 		if !rd.Block().Dominates(b) || b == rd.Block() {
 			continue
 		}
-		isNil := isNilConst(ret.Results[len(ret.Results)-1])
+		isNil := isNilConst(returnedValue(ret, len(ret.Results)-1))
 		switch {
 		case edgeDom(nilSucc, b):
 			// after a successful read
 		case edgeDom(errSucc, b):
-			ev := ret.Results[len(ret.Results)-1]
-			s, isC := strConst(ret.Results[0])
+			ev := returnedValue(ret, len(ret.Results)-1)
+			s, isC := strConst(returnedValue(ret, 0))
 			c := a.classifyErr(ev)
 			nonNil := ev == errv || c.Kind == "fresh" || c.Kind == "sentinel" || c.Kind == "wrap"
 			if isNil || !nonNil {
@@ -559,6 +559,9 @@ func (a *Analysis) ruleF3() {
 	for _, ref := range *buf.Referrers() {
 		c, ok := ref.(ssa.CallInstruction)
 		if !ok || c == ssa.CallInstruction(rd) {
+			continue
+		}
+		if n := calleeName(c); n == "len" || n == "cap" {
 			continue
 		}
 		if !edgeDom(nilSucc, c.Block()) {
